@@ -43,12 +43,18 @@ const parserLoadMode = packages.NeedName | packages.NeedImports | packages.NeedD
 func outputOverlay(srcPath, dstPath string) map[string][]byte {
 	absSrc, err1 := filepath.Abs(srcPath)
 	absDst, err2 := filepath.Abs(dstPath)
-	if err1 != nil || err2 != nil || filepath.Dir(absSrc) != filepath.Dir(absDst) {
+	if err1 != nil || err2 != nil {
 		return nil
 	}
-	if _, err := os.Stat(absDst); err != nil {
+	// The go command reads the directory as it is on disk, however the two paths are spelled:
+	// follow the links. Nothing to hide if nothing is there.
+	srcDir, err1 := filepath.EvalSymlinks(filepath.Dir(absSrc))
+	realDst, err2 := filepath.EvalSymlinks(absDst)
+	if err1 != nil || err2 != nil || srcDir != filepath.Dir(realDst) {
 		return nil
 	}
+	// The go command runs in the setup file's directory as spelled and names the files from there.
+	absDst = filepath.Join(filepath.Dir(absSrc), filepath.Base(realDst))
 	file, err := parser.ParseFile(token.NewFileSet(), absSrc, nil, parser.PackageClauseOnly)
 	if err != nil {
 		// The load below reports the syntax error with its position.
